@@ -344,6 +344,9 @@ func (ts *Terms) compute(v ssa.Value, fr *Frame, depth int) *Term {
 		}
 		return ts.extract(ts.of(x.Tuple, fr, depth+1), x.Index)
 	case *ssa.Phi:
+		if v := ts.cx.memoPhi(x); v != nil {
+			return ts.of(v, fr, depth+1) // hit or miss of a local memo table: the memoised value
+		}
 		m := map[string]*Term{}
 		for _, e := range x.Edges {
 			t := ts.of(e, fr, depth+1)
